@@ -1,6 +1,7 @@
 import Acra.Model.MPEGTS
 import Acra.Model.PMT
 import Acra.Model.PES
+import Acra.Lemmas.ReviewC08Records
 namespace Acra.Props.C08
 open Acra.Py Acra.Model.MPEGTS Acra.Model.PMT Acra.Model.PES
 
@@ -228,4 +229,261 @@ theorem STANAG_unpack_total (t : STANAG) (buf : Bytes) : (STANAG.unpack t buf).2
         | (simp; done)
         | (rename_i e h; have := structUnpackFrom_error _ _ _ _ h; subst this; simp)
 
+/-! ### review additions (rev1-C08): the strides claimed in DESIGN §5 stated (188 per MPEG-TS packet, ≥ 2 per PMT
+    descriptor, ≥ 5 per PMT stream), work bounds for the PMT loops, joint witnesses -/
+
+/-- [review] the MPEG-TS loop advances by exactly 188 bytes per accepted packet -/
+theorem mpegBlock_advance (b : Bytes) (p : Pkt) (n : Nat) (h : decBlock b = .ok (p, n)) : n = 188 := by
+  simp only [decBlock] at h
+  split at h <;> simp_all
+
+/-- [review] work bound with the real stride: at most ⌈|buf|/188⌉ packets -/
+theorem MPEGTS_items_stride (t : TS) (buf : Bytes) (h : (TS.unpack t buf).2 = .ok true) :
+    (TS.unpack t buf).1.blocks.length * 188 ≤ buf.length + 187 := by
+  revert h
+  simp only [TS.unpack]
+  cases hd : decOff decBlock moreBlocks buf (buf.length + 1) 0 with
+  | error e => simp
+  | ok bs =>
+    simp only
+    intro _
+    have := Acra.Lemmas.ReviewC08.decOff_items_stride decBlock moreBlocks buf mpegBlock_progress 188
+      (fun b x n hb => by rw [mpegBlock_advance b x n hb]; exact Nat.le_refl _) _ 0 bs hd
+    omega
+
+/-- [review] a decoded descriptor consumes its 2-byte header (and its data, as far as present) -/
+theorem Desc_unpack_consumes (buf rest : Bytes) (d : Desc) (h : Desc.unpack buf = .ok (d, rest)) :
+    rest.length + 2 ≤ buf.length ∧ d.data.length + rest.length + 2 ≤ buf.length := by
+  simp only [Desc.unpack] at h
+  cases hu : structUnpackFrom Acra.Gen.PMT.DescriptorTag_FMT buf 0 with
+  | error e => simp [hu] at h
+  | ok vs =>
+    have hlen := structUnpackFrom_ok_length _ _ _ _ hu
+    simp only [Acra.Gen.PMT.DescriptorTag_FMT, Fmt.size, codesSize, Code.size] at hlen
+    rw [hu] at h
+    split at h
+    · simp at h
+    · simp only [Except.ok.injEq, Prod.mk.injEq] at h
+      obtain ⟨rfl, rfl⟩ := h
+      simp only [List.length_drop, slice_length, Acra.Gen.PMT.DescriptorTag_FMT, Fmt.size, codesSize, Code.size]
+      omega
+    · simp at h
+
+/-- [review] a decoded stream entry consumes its 5-byte header -/
+theorem Stream_unpack_consumes (buf rest : Bytes) (d : Stream) (h : Stream.unpack buf = .ok (d, rest)) :
+    rest.length + 5 ≤ buf.length ∧ d.elementary_stream_descriptors.length + rest.length + 5 ≤ buf.length := by
+  simp only [Stream.unpack] at h
+  cases hu : structUnpackFrom Acra.Gen.PMT.PMTStream_FMT buf 0 with
+  | error e => simp [hu] at h
+  | ok vs =>
+    have hlen := structUnpackFrom_ok_length _ _ _ _ hu
+    simp only [Acra.Gen.PMT.PMTStream_FMT, Fmt.size, codesSize, Code.size] at hlen
+    rw [hu] at h
+    split at h
+    · simp at h
+    · simp only [Except.ok.injEq, Prod.mk.injEq] at h
+      obtain ⟨rfl, rfl⟩ := h
+      simp only [List.length_drop, slice_length, Acra.Gen.PMT.PMTStream_FMT, Fmt.size, codesSize, Code.size]
+      omega
+    · simp at h
+
+/-- [review] work bound of the descriptor loop: at most `|buf|/2` descriptors -/
+theorem decDescs_items_le (fuel : Nat) (buf : Bytes) (ds : List Desc) (h : decDescs fuel buf = .ok ds) :
+    ds.length * 2 ≤ buf.length := by
+  induction fuel generalizing buf ds with
+  | zero => simp [decDescs] at h
+  | succ fuel ih =>
+    unfold decDescs at h
+    split at h
+    · cases hd : Desc.unpack buf with
+      | error e => simp [hd] at h
+      | ok r =>
+        obtain ⟨d, rest⟩ := r
+        have hs := (Desc_unpack_consumes buf rest d hd).1
+        simp only [hd] at h
+        cases hr : decDescs fuel rest with
+        | error e => simp [hr] at h
+        | ok es =>
+          simp only [hr, Except.ok.injEq] at h
+          subst h
+          have := ih rest es hr
+          simp only [List.length_cons, Nat.succ_mul]
+          omega
+    · simp at h; subst h; simp
+
+/-- [review] work bound of the stream loop: at most `|buf|/5` streams, and what is left over was not consumed -/
+theorem decStreams_items_le (fuel : Nat) (buf : Bytes) (ss : List Stream) (left : Bytes)
+    (h : decStreams fuel buf = .ok (ss, left)) : ss.length * 5 + left.length ≤ buf.length := by
+  induction fuel generalizing buf ss left with
+  | zero => simp [decStreams] at h
+  | succ fuel ih =>
+    unfold decStreams at h
+    split at h
+    · cases hd : Stream.unpack buf with
+      | error e => simp [hd] at h
+      | ok r =>
+        obtain ⟨d, rest⟩ := r
+        have hs := (Stream_unpack_consumes buf rest d hd).1
+        simp only [hd] at h
+        cases hr : decStreams fuel rest with
+        | error e => simp [hr] at h
+        | ok es =>
+          obtain ⟨es, l⟩ := es
+          simp only [hr, Except.ok.injEq, Prod.mk.injEq] at h
+          obtain ⟨rfl, rfl⟩ := h
+          have := ih rest es l hr
+          simp only [List.length_cons, Nat.succ_mul]
+          omega
+    · simp only [Except.ok.injEq, Prod.mk.injEq] at h
+      obtain ⟨rfl, rfl⟩ := h
+      simp
+
+/-- [review] packet-level work bound for `MPEGPacketPMT.unpack` (missing before): the numbers of descriptors and
+    streams returned are bounded by the length of the transport packet's payload -/
+theorem PMT_items_le (t : PMT) (buf : Bytes) (b : Bool) (h : (PMT.unpack t buf).2 = .ok b) :
+    (PMT.unpack t buf).1.descriptor_tags.length * 2 ≤ (PMT.unpack t buf).1.pkt.payload.length ∧
+    (PMT.unpack t buf).1.streams.length * 5 ≤ (PMT.unpack t buf).1.pkt.payload.length := by
+  revert h
+  simp only [PMT.unpack]
+  cases hu : Pkt.unpack t.pkt buf with
+  | mk p r =>
+    cases r with
+    | error e => simp
+    | ok u =>
+      simp only
+      repeat' split
+      all_goals try (simp; done)
+      rename_i ds hds hcrc _ ss left hss _ _ _
+      intro _
+      simp only
+      have h1 : ds.length * 2 ≤ p.payload.length := by
+        split at hds
+        · have := decDescs_items_le _ _ _ hds
+          simp only [slice_length] at this
+          omega
+        · simp only [Except.ok.injEq] at hds
+          subst hds; simp
+      have h2 := decStreams_items_le _ _ _ _ hss
+      simp only [slice_length] at h2
+      exact ⟨h1, by omega⟩
+
+/-- [review] witness: two transport packets -/
+def wTS : Bytes := ([0x47, 0x01, 0x00, 0x10] ++ List.replicate 184 0xAB) ++ ([0x47, 0x01, 0x00, 0x11] ++ List.replicate 184 0xCD)
+
+set_option maxRecDepth 20000 in
+example : (TS.unpack ⟨[]⟩ wTS).2 = .ok true ∧ (TS.unpack ⟨[]⟩ wTS).1.blocks.length = 2 := ⟨by rfl, by rfl⟩
+set_option maxRecDepth 20000 in
+example : (decBlock wTS).map (·.2) = .ok 188 := by rfl
+
+/-- [review] witness: the PMT packet of `Props/C06/PMT.pmtExample` (one descriptor, two streams, valid CRC) -/
+def wPMT : Bytes :=
+  [71, 64, 0, 16, 0, 0, 48, 30, 0, 1, 198, 0, 0, 225, 0, 240, 4, 5, 2, 1, 2, 27, 225, 0, 240, 0, 15, 225, 1,
+   240, 3, 9, 9, 9, 21, 232, 116, 73] ++ List.replicate 150 0xFF
+
+set_option maxRecDepth 20000 in
+example : (PMT.unpack PMT.fresh wPMT).2 = .ok true ∧ (PMT.unpack PMT.fresh wPMT).1.descriptor_tags.length = 1 ∧
+    (PMT.unpack PMT.fresh wPMT).1.streams.length = 2 := ⟨by rfl, by rfl, by rfl⟩
+example : Desc.unpack [5, 2, 1, 2, 9] = .ok (⟨some 5, [1, 2]⟩, [9]) := by rfl
+example : Stream.unpack [15, 225, 1, 240, 3, 9, 9, 9, 7, 7] = .ok (⟨15, 0x101, [9, 9, 9]⟩, [7, 7]) := by rfl
+example : decDescs 7 [5, 2, 1, 2, 6, 0] = .ok [⟨some 5, [1, 2]⟩, ⟨some 6, []⟩] := by rfl
+example : decStreams 20 [27, 225, 0, 240, 0, 15, 225, 1, 240, 3, 9, 9, 9, 1, 2, 3, 4] =
+    .ok ([⟨27, 0x100, []⟩, ⟨15, 0x101, [9, 9, 9]⟩], [1, 2, 3, 4]) := by rfl
+-- `ite_read_error`: both branches of the hypothesis occur
+example : (if (1 : Nat) = 1 then structUnpackFrom ⟨true, [.u16]⟩ [7] 0 else .ok []) = .error .struct := by rfl
+/-! ### review additions (rev1-C08): outcome lists for the straight-line decoders
+  `Ext.unpack`, `AF.unpack`, `Pkt.unpack`, `PES.unpack`, `STANAG.unpack` contain no loop and their models no fuel
+  (Model/MPEGTS.lean and Model/PES.lean mention `fuel` nowhere): the `… ≠ .error .fuel` theorems above hold by
+  construction of the model.  The content of C08 for them is the list of ordinary exceptions. -/
+
+/-- a value, `struct.error` or a bare `Exception` -/
+abbrev okOrSG (r : R α) : Prop := (∃ a, r = .ok a) ∨ r = .error .struct ∨ r = .error .generic
+
+theorem Ext_unpack_outcomes (t : Ext) (buf : Bytes) : okOrSG (Ext.unpack t buf).2 := by
+  simp only [Ext.unpack, okOrSG]
+  repeat' split
+  all_goals first
+    | (simp; done)
+    | (rename_i e h; have := structUnpackFrom_error _ _ _ _ h; subst this; simp)
+
+theorem AF_unpack_outcomes (t : AF) (buf : Bytes) : okOrSG (AF.unpack t buf).2 := by
+  simp only [AF.unpack, okOrSG]
+  split
+  · rename_i e h; have := structUnpackFrom_error _ _ _ _ h; subst this; simp
+  · split
+    · rename_i e h; have := ite_read_error _ _ _ _ _ _ h; subst this; simp
+    · split
+      · rename_i e h; have := ite_read_error _ _ _ _ _ _ h; subst this; simp
+      · split <;> simp
+      · simp
+    · simp
+  · simp
+
+theorem Pkt_unpack_outcomes (t : Pkt) (buf : Bytes) : okOrSG (Pkt.unpack t buf).2 := by
+  simp only [Pkt.unpack, okOrSG]
+  repeat' split
+  all_goals first
+    | (simp; done)
+    | (rename_i e h; have := structUnpackFrom_error _ _ _ _ h; subst this; simp)
+
+theorem PES_unpack_outcomes (t : PES) (buf : Bytes) : okOrSG (PES.unpack t buf).2 := by
+  have hp := Pkt_unpack_outcomes t.pkt buf
+  simp only [PES.unpack, okOrSG] at hp ⊢
+  cases hu : Pkt.unpack t.pkt buf with
+  | mk p r =>
+    rw [hu] at hp
+    cases r with
+    | error e => simpa using hp
+    | ok u =>
+      simp only
+      repeat' split
+      all_goals first
+        | (simp; done)
+        | (rename_i e h; have := structUnpackFrom_error _ _ _ _ h; subst this; simp)
+
+theorem STANAG_unpack_outcomes (t : STANAG) (buf : Bytes) : okOrSG (STANAG.unpack t buf).2 := by
+  have hp := PES_unpack_outcomes t.pes buf
+  simp only [STANAG.unpack, okOrSG] at hp ⊢
+  cases hu : PES.unpack t.pes buf with
+  | mk p r =>
+    rw [hu] at hp
+    cases r with
+    | error e => simpa using hp
+    | ok u =>
+      simp only
+      repeat' split
+      all_goals first
+        | (simp; done)
+        | (rename_i e h; have := structUnpackFrom_error _ _ _ _ h; subst this; simp)
+
+theorem MPEGTS_unpack_outcomes (t : TS) (buf : Bytes) :
+    (TS.unpack t buf).2 = .ok true ∨ (TS.unpack t buf).2 = .error .generic := by
+  have hf := MPEGTS_unpack_total t buf
+  revert hf
+  simp only [TS.unpack]
+  cases hd : decOff decBlock moreBlocks buf (buf.length + 1) 0 with
+  | ok bs => simp
+  | error e =>
+    simp only
+    intro hf
+    rcases Acra.Lemmas.ReviewC08.decOff_error_source _ _ _ _ _ _ hd with rfl | ⟨o, ho⟩
+    · exact absurd rfl hf
+    · simp only [decBlock] at ho
+      split at ho
+      · simp at ho
+      · simp at ho; subst ho; simp
+theorem Desc_unpack_outcomes (buf : Bytes) :
+    (∃ r, Desc.unpack buf = .ok r) ∨ Desc.unpack buf = .error .struct := by
+  simp only [Desc.unpack]
+  repeat' split
+  all_goals first
+    | (simp; done)
+    | (rename_i e h; have := structUnpackFrom_error _ _ _ _ h; subst this; simp)
+
+theorem Stream_unpack_outcomes (buf : Bytes) :
+    (∃ r, Stream.unpack buf = .ok r) ∨ Stream.unpack buf = .error .struct := by
+  simp only [Stream.unpack]
+  repeat' split
+  all_goals first
+    | (simp; done)
+    | (rename_i e h; have := structUnpackFrom_error _ _ _ _ h; subst this; simp)
 end Acra.Props.C08
